@@ -306,7 +306,7 @@ def run(ctx: Ctx) -> None:
 
 def replay(ctx: Ctx, case: dict) -> None:
     case = {k: v for k, v in case.items() if k != "route"}
-    process(ctx, [case])
+    process(ctx, [case] * 8)       # several times: the shared formatter / parser objects carry state from call to call
 
 
 def make_shrinker(fl: str, process_fn):
